@@ -102,6 +102,7 @@ func runC08(cx *Ctx, r *Report) {
 	}
 	// ------------------------------------------------ callback discipline
 	cx.c08Callback(r)
+	cx.lostUpdateRule(r, []string{"service", "oracle", "random"}, 40)
 	r.requireCount("context-authority", 4)
 }
 
